@@ -22,12 +22,13 @@ FUNCS = {
     "qe_map": "pyxel.models.charge_generation.conversion_with_qe_map",
     "load_charge": "pyxel.models.charge_generation.load_charge",
     "dark_current": "pyxel.models.charge_generation.dark_current",
+    "dark_current_rule07": "pyxel.models.charge_generation.dark_current_rule07",
     "simple_collection": "pyxel.models.charge_collection.simple_collection",
 }
 GROUP = {
     "illumination": "photon_collection", "load_image": "photon_collection", "stripe_pattern": "photon_collection",
     "simple_conversion": "charge_generation", "qe_map": "charge_generation", "load_charge": "charge_generation",
-    "dark_current": "charge_generation", "simple_collection": "charge_collection",
+    "dark_current": "charge_generation", "dark_current_rule07": "charge_generation", "simple_collection": "charge_collection",
 }
 
 
@@ -42,15 +43,25 @@ def hx(a):
 def make_det(d):
     from harness import pyx
 
+    char = dict(quantum_efficiency=fx(d.get("qe", 1.0)))
+    # optional read-out chain parameters (they enter load_image's ADU -> photon conversion through system_gain)
+    if "adc_bits" in d:
+        char["adc_bit_resolution"] = int(d["adc_bits"])
+    if "ctv" in d:
+        char["charge_to_volt_conversion"] = fx(d["ctv"])
+    if "preamp" in d:
+        char["pre_amplification"] = fx(d["preamp"])
+    if "vrange" in d:
+        char["adc_voltage_range"] = (fx(d["vrange"][0]), fx(d["vrange"][1]))
     det = pyx.make_detector(kind=d.get("kind", "ccd"), rows=d["rows"], cols=d["cols"],
-                            pixel_vert_size=fx(d.get("pv", 10.0)), pixel_horz_size=fx(d.get("ph", 10.0)),
-                            quantum_efficiency=fx(d.get("qe", 1.0)))
+                            pixel_vert_size=fx(d.get("pv", 10.0)), pixel_horz_size=fx(d.get("ph", 10.0)), **char)
     det.environment.temperature = fx(d.get("temperature", 200.0))
     return det
 
 
 def data_file(m, shape, tag):
     """Write the model's input array to a uniquely named file in the cwd (lru_cache keys on the name)."""
+    shape = tuple(m["data_shape"]) if m.get("data_shape") else shape   # the file may be smaller/larger than the detector
     arr = np.array([fx(v) for v in m["data"]], dtype=float).reshape(shape)
     h = hashlib.sha1(arr.tobytes() + str(shape).encode()).hexdigest()[:16]
     fmt = m.get("fmt", "npy")
@@ -63,16 +74,22 @@ def data_file(m, shape, tag):
     return name
 
 
-def _dc_rate(det, fom):
-    """The real dark_current model's increment for a unit time step (clock time deliberately != 1)."""
-    from pyxel.models.charge_generation import dark_current
-
+def _unit_rate(det, name, kw):
+    """The real model's increment for a unit time step (clock time deliberately != 1)."""
     det.empty()
     det.set_readout(times=[1.0], start_time=0.0)
     det.readout_properties.time = 7.0
     det.readout_properties.time_step = 1.0
-    dark_current(det, figure_of_merit=fom, temporal_noise=False)
+    _func(name)(det, **kw)
     return np.array(det.charge.array, dtype=float)
+
+
+def dc_kwargs(m, fom):
+    kw = dict(figure_of_merit=fom, temporal_noise=False)
+    if m.get("band_gap") is not None:
+        kw["band_gap"] = fx(m["band_gap"])
+        kw["band_gap_room_temperature"] = fx(m["band_gap_rt"])
+    return kw
 
 
 def calibrate_dc(det_spec, m):
@@ -83,10 +100,10 @@ def calibrate_dc(det_spec, m):
     det = make_det(det_spec)
     if "fom" in m:
         fom = fx(m["fom"])
-        return fom, _dc_rate(det, fom)
-    base = float(_dc_rate(det, 1.0).reshape(-1)[0])
+        return fom, _unit_rate(det, "dark_current", dc_kwargs(m, fom))
+    base = float(_unit_rate(det, "dark_current", dc_kwargs(m, 1.0)).reshape(-1)[0])
     if not (base > 0 and math.isfinite(base)):
-        return 1.0, _dc_rate(det, 1.0)
+        return 1.0, _unit_rate(det, "dark_current", dc_kwargs(m, 1.0))
     for target in [fx(t) for t in m["targets"]]:
         f0 = target / base
         cands, up, dn = [f0], f0, f0
@@ -94,10 +111,27 @@ def calibrate_dc(det_spec, m):
             up, dn = math.nextafter(up, math.inf), math.nextafter(dn, -math.inf)
             cands += [up, dn]
         for f in cands:
-            a = _dc_rate(det, f)
+            a = _unit_rate(det, "dark_current", dc_kwargs(m, f))
             if (a == target).all():
                 return f, a
-    return 1.0, _dc_rate(det, 1.0)
+    return 1.0, _unit_rate(det, "dark_current", dc_kwargs(m, 1.0))
+
+
+def placed(m, shape, tag, fname):
+    """kwargs position/align of a file-loading model + what the implementation's own placement helper
+    returns for them (the property is about time, not about cropping)."""
+    kw, aux = {}, {}
+    if m.get("position") is not None:
+        kw["position"] = (int(m["position"][0]), int(m["position"][1]))
+    if m.get("align") is not None:
+        kw["align"] = m["align"]
+    if kw or m.get("data_shape"):
+        from pyxel.util import load_cropped_and_aligned_image
+
+        py, px = kw.get("position", (0, 0))
+        aux["image"] = hx(load_cropped_and_aligned_image(shape=shape, filename=fname, position_x=px, position_y=py,
+                                                         align=kw.get("align")))
+    return kw, aux
 
 
 def build_args(det_spec, m, tag):
@@ -119,17 +153,31 @@ def build_args(det_spec, m, tag):
             kw["time_scale"] = fx(m["time_scale"])
     elif k == "load_image":
         kw = dict(image_file=data_file(m, shape, tag))
+        pkw, paux = placed(m, shape, tag, kw["image_file"])
+        kw.update(pkw)
+        aux.update(paux)
         if "multiplier" in m:
             kw["multiplier"] = fx(m["multiplier"])
         if "time_scale" in m:
             kw["time_scale"] = fx(m["time_scale"])
+        if m.get("convert"):
+            kw["convert_to_photons"] = True
+            kw["bit_resolution"] = int(m["bit_resolution"])
+            cht = make_det(det_spec).characteristics
+            aux["system_gain"] = float(cht.system_gain).hex()
+            aux["adc_bits"] = int(cht.adc_bit_resolution)
     elif k == "stripe_pattern":
-        kw = dict(level=fx(m["level"]), period=int(m["period"]), startwith=int(m.get("startwith", 0)), angle=0)
+        kw = dict(level=fx(m["level"]), period=int(m["period"]), startwith=int(m.get("startwith", 0)),
+                  angle=int(m.get("angle", 0)))
         if "time_scale" in m:
             kw["time_scale"] = fx(m["time_scale"])
         from pyxel.models.photon_collection.stripe_pattern import compute_pattern
-        aux["pattern"] = hx(compute_pattern(detector_shape=shape, period=kw["period"], level=1.0, angle=0,
-                                            start_with=kw["startwith"]))
+        if kw["angle"] == 0:
+            aux["pattern"] = hx(compute_pattern(detector_shape=shape, period=kw["period"], level=1.0, angle=0,
+                                                start_with=kw["startwith"]))
+        else:   # a rotated pattern is interpolated: take the implementation's own pattern at the actual level
+            aux["pattern_level"] = hx(compute_pattern(detector_shape=shape, period=kw["period"], level=kw["level"],
+                                                      angle=kw["angle"], start_with=kw["startwith"]))
     elif k == "simple_conversion":
         kw = dict(binomial_sampling=False)
         if m.get("qe") is not None:
@@ -138,13 +186,21 @@ def build_args(det_spec, m, tag):
         kw = dict(filename=data_file(m, shape, tag), binomial_sampling=False)
     elif k == "load_charge":
         kw = dict(filename=data_file(m, shape, tag))
+        pkw, paux = placed(m, shape, tag, kw["filename"])
+        kw.update(pkw)
+        aux.update(paux)
         if "time_scale" in m:
             kw["time_scale"] = fx(m["time_scale"])
     elif k == "dark_current":
         fom, rate = calibrate_dc(det_spec, m)
-        kw = dict(figure_of_merit=fom, temporal_noise=False)
+        kw = dc_kwargs(m, fom)
         aux["fom"] = float(fom).hex()
         aux["rate"] = hx(rate)
+    elif k == "dark_current_rule07":
+        kw = dict(temporal_noise=False)
+        if m.get("cutoff") is not None:
+            kw["cutoff_wavelength"] = fx(m["cutoff"])
+        aux["rate"] = hx(_unit_rate(make_det(det_spec), k, kw))
     elif k == "simple_collection":
         kw = {}
     else:
